@@ -38,6 +38,8 @@ type c20Op struct {
 	ExpInParents bool   `json:"exp_in_parents,omitempty"`
 	AllowDirty   bool   `json:"allow_dirty,omitempty"`
 	Via          string `json:"via,omitempty"` // API variant used (diagnostic)
+	// Multi: the history runs on several Database handles over one directory (see the ff rule in c20Step)
+	Multi bool `json:"multi,omitempty"`
 }
 
 type c20Out struct {
@@ -176,6 +178,20 @@ func c20Step(f *c20Facts, s c20State, op c20Op, out c20Out) (bool, c20State) {
 		switch out.Err {
 		case "":
 			if s[d] != op.Exp {
+				// Identical concurrent fast-forwards through different handles ("processes"): both compute the same
+				// store root and persist the same one-chunk table file, so both manifest contents have the same NBS
+				// lock hash and the later writer's manifest update reads back "its own" contents and reports success.
+				// The store is byte-for-byte in the state the operation asked for and nothing is lost; A.2 lists this
+				// as "already committed" for Commit. Accepted only with several handles (one handle serialises on the
+				// cached root and refuses) and only when head and working set already equal the operation's result.
+				if op.Multi && s[d] == op.New && op.Exp != "" && f.isAnc(op.Exp, op.New) {
+					if w < 0 {
+						return true, s
+					}
+					if r, ok := f.root(op.New); ok && s[w] == cleanTok(r) {
+						return true, s
+					}
+				}
 				return false, s
 			}
 			if op.New == op.Exp {
